@@ -407,6 +407,9 @@ func randomMarch(r *hx.Rng) desc {
 				e = hi[a] - lo[a]
 			}
 		}
+		if span > 0 {
+			d.NFun = 1 // up to 12 blocks of 8 MB per attribute and canvas: keep the footprint bounded
+		}
 		d.Fields = append(d.Fields, sphereField(lo, hi, r.Range(e/2, e)|1))
 	}
 	if r.Chance(1, 8) {
@@ -552,13 +555,13 @@ func buildPlan(tier string, seed uint64, n int) []desc {
 		for k := 0; k < 24; k++ {
 			d := randomMarch(r)
 			d.Procs = hx.Pick(r, []int{0, 1, 2, 16})
-			d.RaceSub = k%2 == 0
+			d.RaceSub = k%3 == 0
 			plan = append(plan, d)
 		}
 		for _, p := range []int{1, 2} {
 			for i, d := range fixedMarch() {
 				if i == 1 || i == 2 {
-					d.Procs, d.Reps = p, 3
+					d.Procs, d.Reps = p, 2
 					d.RaceSub = true
 					plan = append(plan, d)
 				}
